@@ -322,7 +322,7 @@ def case_config(H, g, opname):
         else:
             H.engine_error(name, e)
 
-    for ctx, res in run_paths(H, name, prog, max_paths=16, raised=on_raise):
+    for ctx, res in run_paths(H, name, prog, max_paths=48, raised=on_raise):
         hyp = H.hyps_of(ctx)
         pn = H.paths
         for lab, a_, b_ in res:
